@@ -11,6 +11,8 @@ ELEMENT = {'ifd', 'arith_c', 'mod_c', 'unary_num', 'ceilfloor', 'round', 'power'
 
 
 def main(ck):
+    if ck.replay_path:
+        return CC.replay(ck)
     pr = ck.proof('C01', extra_modules=('VtlModel.Props.C01Cond',))
     q = ck.quick()
     res = []
